@@ -86,8 +86,8 @@ def cli_gen(profile, n_quick, n_thorough, relative=False):
         out = []
         for _ in range(n):
             c = gen_program(rng, PROFILES[profile], tier)
-            if relative and rng.random() < 0.7:
-                c['cli_relative'] = True
+            if relative and rng.random() < 0.8:
+                c['cli_relative'] = rng.choice(['srcdir', 'parent'])
             # command-line edge values of the window options
             r = rng.random()
             if r < 0.35:
